@@ -33,8 +33,11 @@ Ltac tstep_unfold :=
   cbv [t_step tB tU tL tLE t_tok t_tok_always t_push opt_is is_ws4 t_toks t_cur t_depth t_uri t_lit t_esc t_skip negb andb orb];
   eval_closed; cbv iota.
 
+Lemma tstep_open_uri_gen : forall toks cur nx, opt_is cLT nx = false -> t_step (tB toks cur) cLT nx = tU toks (cLT :: cur).
+Proof. intros toks cur nx H. unfold opt_is in H. tstep_unfold. destruct nx as [x|]; [rewrite H|]; kill_ifs. Qed.
+
 Lemma tstep_open_uri : forall toks nx, opt_is cLT nx = false -> t_step (tB toks []) cLT nx = tU toks [cLT].
-Proof. intros toks nx H. unfold opt_is in H. tstep_unfold. destruct nx as [x|]; [rewrite H|]; kill_ifs. Qed.
+Proof. intros. apply tstep_open_uri_gen. assumption. Qed.
 
 Lemma tstep_uri_char : forall toks cur c nx, iri_char c = true -> t_step (tU toks cur) c nx = tU toks (c :: cur).
 Proof.
@@ -67,6 +70,17 @@ Proof.
   intros toks cur c nx H. apply bare_char_facts in H.
   destruct H as (_ & H1 & H2 & H3 & H4 & H5 & H6 & H7 & H8 & H9 & H10 & H11 & _).
   tstep_unfold. rewrite H1, H2, H3, H4, H5, H6, H7, H8, H9, H10, H11. kill_ifs.
+Qed.
+
+(* the characters of a literal's suffix: '@', '^', '-' besides letters and digits *)
+Lemma tstep_suffix_char : forall toks cur c nx, (c = cAT \/ c = cCARET \/ c = cMINUS) -> t_step (tB toks cur) c nx = tB toks (c :: cur).
+Proof. intros toks cur c nx [H|[H|H]]; subst c; tstep_unfold; kill_ifs. Qed.
+
+Lemma tstep_tag_char : forall toks cur c nx, tag_char c = true -> t_step (tB toks cur) c nx = tB toks (c :: cur).
+Proof.
+  intros toks cur c nx H. unfold tag_char in H. apply orb_true_iff in H. destruct H as [H|H].
+  - apply tstep_bare_char. unfold bare_char, name_char. rewrite H. reflexivity.
+  - apply N.eqb_eq in H. subst c. apply tstep_suffix_char. auto.
 Qed.
 
 Lemma tstep_open_lit : forall toks nx, t_step (tB toks []) cDQ nx = tL toks [cDQ].
@@ -162,6 +176,26 @@ Proof.
     rewrite tscan_lchar by exact Hx. rewrite IH by exact H. rewrite <- app_assoc. reflexivity.
 Qed.
 
+Lemma tscan_tag : forall tag toks pre la, forallb tag_char tag = true ->
+  tscan_la (tB toks (rev pre)) tag la = tB toks (rev (pre ++ tag)).
+Proof.
+  induction tag as [|c tag IH]; intros toks pre la H.
+  - rewrite app_nil_r. reflexivity.
+  - cbn [forallb] in H. apply andb_true_iff in H. destruct H as [Hc H].
+    cbn [tscan_la]. rewrite tstep_tag_char by exact Hc. rewrite rev_snoc_cons.
+    rewrite IH by exact H. rewrite <- app_assoc. reflexivity.
+Qed.
+
+Lemma ttl_lit_nt : forall b x, wf_term_ttl (TLit b x) = true -> wf_term_nt (TLit b x) = true.
+Proof.
+  intros b x H. cbn [wf_term_ttl wf_term_nt] in *. apply andb_true_iff in H. destruct H as [H Hx].
+  apply andb_true_iff in H. destruct H as [Hb _]. rewrite Hb. cbn [andb].
+  destruct x as [|tag|iri]; cbn [wf_suffix]; [reflexivity | exact Hx|].
+  apply andb_true_iff in Hx. destruct Hx as [Hi _]. unfold wf_iri in Hi.
+  induction iri as [|c iri IH]; [reflexivity|]. cbn [forallb] in *. apply andb_true_iff in Hi. destruct Hi as [Hc Hi].
+  apply iri_char_facts in Hc. destruct Hc as (_ & _ & G & _). rewrite G. cbn [negb andb]. apply IH. exact Hi.
+Qed.
+
 (* ---------------------------------------------------------------------------------------------- *)
 (* a state in which the term `part` has been read after the tokens `toks` (pushed or still pending) *)
 Definition TRes (s : tst) (toks : list str) (part : str) : Prop :=
@@ -177,7 +211,7 @@ Proof.
 Qed.
 
 Lemma ttl_iri_wf : forall s, ttl_iri_ok s = true -> wf_iri s = true.
-Proof. intros s H. unfold ttl_iri_ok in H. apply andb_true_iff in H. tauto. Qed.
+Proof. intros s H. unfold ttl_iri_ok in H. apply andb_true_iff in H. destruct H as [H _]. apply andb_true_iff in H. tauto. Qed.
 
 Lemma name_bare : forall l, forallb name_char l = true -> forallb bare_char l = true.
 Proof.
@@ -222,19 +256,32 @@ Proof.
     { rewrite forallb_app. cbn [forallb]. rewrite (name_bare p H), (name_bare l H3). reflexivity. }
     rewrite tscan_bare by exact B. cbn [app]. apply tres_pending; [|destruct p; discriminate].
     apply tight_all_nws. apply bare_nws. exact B.
-  - (* plain literal *)
-    destruct x; try discriminate. apply andb_true_iff in H. destruct H as [Hb _].
-    cbn [render_term]. rewrite app_nil_r || idtac.
-    replace (cDQ :: lit_text b ++ [cDQ]) with ([cDQ] ++ lit_text b ++ [cDQ]) by reflexivity.
-    cbn [app tscan_la]. rewrite tstep_open_lit. change (tL toks [cDQ]) with (tL toks (rev [cDQ])).
-    assert (E : forall la', tscan_la (tL toks (rev [cDQ])) (lit_text b ++ [cDQ]) la' = tB toks (rev (cDQ :: lit_text b ++ [cDQ]))).
-    { intro la'. rewrite tscan_la_app. rewrite tscan_lit_body by exact Hb. cbn [tscan_la]. rewrite tstep_close_lit.
+  - (* literal, with or without a suffix *)
+    pose proof (tight_term _ (ttl_lit_nt b x H)) as Ht.
+    cbn [wf_term_ttl] in H. apply andb_true_iff in H. destruct H as [H Hx]. apply andb_true_iff in H. destruct H as [Hb _].
+    rewrite render_lit in *. rewrite tscan_la_app.
+    set (la1 := match suffix_text x with [] => la | c :: _ => Some c end).
+    assert (E : tscan_la (tB toks []) (cDQ :: lit_text b ++ [cDQ]) la1 = tB toks (rev (cDQ :: lit_text b ++ [cDQ]))).
+    { cbn [tscan_la]. rewrite tstep_open_lit. change (tL toks [cDQ]) with (tL toks (rev [cDQ])).
+      rewrite tscan_la_app. rewrite tscan_lit_body by exact Hb. cbn [tscan_la]. rewrite tstep_close_lit.
       rewrite rev_snoc_cons, <- app_assoc. reflexivity. }
-    rewrite E. apply tres_pending; [apply tight_ends; reflexivity | discriminate].
+    rewrite E. clear E.
+    destruct x as [|tag|iri]; cbn [suffix_text] in *.
+    + rewrite app_nil_r in *. cbn [tscan_la]. apply tres_pending; [exact Ht | discriminate].
+    + cbn [tscan_la]. rewrite tstep_suffix_char by auto. rewrite rev_snoc_cons.
+      rewrite tscan_tag by exact Hx. rewrite <- app_assoc. cbn [app] in *.
+      apply tres_pending; [exact Ht | discriminate].
+    + apply andb_true_iff in Hx. destruct Hx as [Hi _].
+      cbn [tscan_la]. rewrite !tstep_suffix_char by auto.
+      assert (Eo : opt_is cLT (match iri ++ [cGT] with [] => la | c2 :: _ => Some c2 end) = false).
+      { destruct iri as [|c iri']; [reflexivity|]. cbn [app]. unfold wf_iri in Hi. cbn [forallb] in Hi.
+        apply andb_true_iff in Hi. destruct Hi as [Hc _]. apply iri_char_facts in Hc. destruct Hc as (_ & Hc & _).
+        unfold opt_is. exact Hc. }
+      rewrite tstep_open_uri_gen by exact Eo. rewrite !rev_snoc_cons.
+      rewrite tscan_uri_content by exact Hi. rewrite <- !app_assoc. cbn [app] in *.
+      rewrite (trim_tight _ Ht). apply tres_clean.
 Qed.
 
-(* ---------------------------------------------------------------------------------------------- *)
-(* the tokens of a statement line *)
 Lemma t_tok_clean : forall toks, t_tok (tB toks []) = tB toks [].
 Proof. reflexivity. Qed.
 
@@ -348,7 +395,7 @@ Lemma clean_resolve : forall pref t, pref_ok pref -> wf_term_ttl t = true ->
 Proof.
   intros pref t Hp H. destruct t as [s|l|p l|b x|s p o]; cbn [wf_term_ttl] in H; try discriminate.
   - (* IRI *)
-    unfold ttl_iri_ok in H. apply andb_true_iff in H. destruct H as [Hw Hc].
+    unfold ttl_iri_ok in H. apply andb_true_iff in H. destruct H as [H _]. apply andb_true_iff in H. destruct H as [Hw Hc].
     cbn [render_term lex]. unfold clean_turtle_term.
     rewrite (trim_tight (cLT :: s ++ [cGT])) by (apply tight_ends; reflexivity).
     rewrite starts_ltlt_iri by exact Hw. rewrite starts_with_c_cons.
@@ -399,23 +446,29 @@ Proof.
       * split; [reflexivity | exact E2].
     + clear -H. induction p as [|x p IH]; [reflexivity|]. cbn [forallb] in *. apply andb_true_iff in H. destruct H as [Hx H].
       apply name_char_facts in Hx. destruct Hx as (_ & _ & _ & _ & C & _). rewrite C. cbn [negb andb]. apply IH. exact H.
-  - (* plain literal *)
-    destruct x; try discriminate. apply andb_true_iff in H. destruct H as [Hb Hv].
-    unfold ttl_value_ok in Hv. repeat (apply andb_true_iff in Hv; destruct Hv as [Hv ?]). apply negb_true_iff in Hv, H, H0.
-    pose proof (decode_rendered_lit b SNone Hb) as D. cbn [suffix_text] in D.
-    cbn [lex]. unfold clean_turtle_term.
-    assert (T : trim (render_term (TLit b SNone)) = render_term (TLit b SNone)).
-    { apply trim_tight. cbn [render_term]. apply tight_ends; reflexivity. }
-    rewrite T, D. cbn [render_term].
-    assert (E1 : starts_with sLTLT (cDQ :: lit_text b ++ [cDQ]) = false) by reflexivity.
+  - (* literal *)
+    pose proof (ttl_lit_nt b x H) as Hnt. pose proof (trim_tight _ (tight_term _ Hnt)) as T.
+    cbn [wf_term_ttl] in H. apply andb_true_iff in H. destruct H as [H Hx]. apply andb_true_iff in H. destruct H as [Hb Hv].
+    unfold ttl_value_ok in Hv. apply andb_true_iff in Hv. destruct Hv as [Hv Hv3]. apply andb_true_iff in Hv. destruct Hv as [Hv1 Hv2].
+    apply negb_true_iff in Hv1, Hv2, Hv3.
+    pose proof (decode_rendered_lit b x Hb) as D.
+    unfold clean_turtle_term. rewrite T, D. rewrite render_lit. cbn [app].
+    assert (E1 : starts_with sLTLT (cDQ :: (lit_text b ++ [cDQ]) ++ suffix_text x) = false) by reflexivity.
     rewrite E1. rewrite !starts_with_c_cons. change (cDQ =? cLT) with false. change (cDQ =? cDQ) with true. cbn [andb].
-    change (cDQ :: lit_text b ++ [cDQ]) with ((cDQ :: lit_text b) ++ [cDQ]). rewrite ends_with_c_snoc.
-    change (cDQ =? cDQ) with true. cbv iota.
-    split; [apply rqt_plain; [exact Hv | exact H0 | rewrite H; apply orb_true_r] | exact Hv].
+    destruct x as [|tag|iri]; cbn [suffix_text lex].
+    + split; [apply rqt_plain; [exact Hv1 | exact Hv2 | rewrite Hv3; apply orb_true_r] | exact Hv1].
+    + change (starts_with sCC (cAT :: tag)) with false. cbv iota. rewrite starts_with_c_cons. change (cAT =? cAT) with true. cbv iota.
+      assert (F1 : starts_with_c cLT (lit_value b ++ cAT :: tag) = false) by (destruct (lit_value b); [reflexivity | exact Hv1]).
+      assert (F2 : starts_with_c cDQ (lit_value b ++ cAT :: tag) = false) by (destruct (lit_value b); [reflexivity | exact Hv2]).
+      assert (F3 : contains_c cCOLON (lit_value b ++ cAT :: tag) = false).
+      { unfold contains_c in *. rewrite existsb_app, Hv3. cbn [existsb orb]. change (cCOLON =? cAT) with false. cbn [orb].
+        clear -Hx. induction tag as [|c tag IH]; [reflexivity|]. cbn [forallb existsb] in *. apply andb_true_iff in Hx. destruct Hx as [Hc Hx].
+        rewrite (IH Hx), orb_false_r. apply N.eqb_neq. intro E. subst c. discriminate. }
+      split; [apply rqt_plain; [exact F1 | exact F2 | rewrite F3; apply orb_true_r] | exact F1].
+    + change (starts_with sCC (cCARET :: cCARET :: cLT :: iri ++ [cGT])) with true. cbv iota.
+      split; [apply rqt_plain; [exact Hv1 | exact Hv2 | rewrite Hv3; apply orb_true_r] | exact Hv1].
 Qed.
 
-(* ---------------------------------------------------------------------------------------------- *)
-(* one line of parse_turtle *)
 Lemma ttl_first : forall t, wf_term_ttl t = true ->
   exists c r, render_term t = c :: r /\ (c = cLT \/ bare_char c = true \/ c = cDQ).
 Proof.
@@ -426,7 +479,7 @@ Proof.
     destruct p as [|c p']; cbn [app]; [exists cCOLON, l; split; [reflexivity|]; right; left; reflexivity|].
     exists c, (p' ++ cCOLON :: l). split; [reflexivity|]. right. left. cbn [forallb] in H. apply andb_true_iff in H.
     destruct H as [Hc _]. unfold bare_char. rewrite Hc. reflexivity.
-  - destruct x; try discriminate. eauto 6.
+  - eauto 6.
 Qed.
 
 Lemma first_facts : forall c, (c = cLT \/ bare_char c = true \/ c = cDQ) ->
@@ -446,14 +499,14 @@ Qed.
 
 Lemma ttl_tight : forall t, wf_term_ttl t = true -> tight (render_term t) /\ render_term t <> [].
 Proof.
-  intros t H. destruct (term_tres t H [] None) as [_ Ht].
+  intros t H. destruct (term_tres t H [] None) as [_ Ht]. pose proof H as H0.
   destruct (ttl_first t H) as (c & r & E & Hc). split; [|rewrite E; discriminate].
   destruct t as [s|l|p l|b x|s p o]; cbn [wf_term_ttl] in H; try discriminate; cbn [render_term].
   - apply tight_ends; reflexivity.
   - apply tight_all_nws. apply bare_nws. cbn [forallb]. rewrite (name_bare l H). reflexivity.
   - repeat (apply andb_true_iff in H; destruct H as [H ?]). apply tight_all_nws. apply bare_nws.
-    rewrite forallb_app. cbn [forallb]. rewrite (name_bare p H), (name_bare l H3). reflexivity.
-  - destruct x; try discriminate. apply tight_ends; reflexivity.
+    rewrite forallb_app. cbn [forallb]. rewrite (name_bare p H), (name_bare l H4). reflexivity.
+  - apply (tight_term _ (ttl_lit_nt b x H0)).
 Qed.
 
 (* if pat is a prefix of a ++ b then it is a prefix of a, or every character of a occurs in pat *)
@@ -484,12 +537,72 @@ Proof.
       apply andb_true_iff in Es. destruct Es as [Es _]. vm_compute in Es. discriminate.
 Qed.
 
+(* the object of a well-formed statement carries no `{| |}` annotation *)
+Lemma find_sub_none : forall p0 p s, forallb (fun c => negb (c =? p0)) s = true -> find_sub (p0 :: p) s = None.
+Proof.
+  induction s as [|c r IH]; intro H; [reflexivity|].
+  cbn [forallb] in H. apply andb_true_iff in H. destruct H as [Hc H]. apply negb_true_iff in Hc.
+  cbn [find_sub starts_with]. rewrite N.eqb_sym, Hc. cbn [andb]. rewrite IH by exact H. reflexivity.
+Qed.
+
+Lemma contains_none : forall c s, contains_c c s = false -> forallb (fun x => negb (x =? c)) s = true.
+Proof.
+  unfold contains_c. induction s as [|x s IH]; intro H; [reflexivity|].
+  cbn [existsb forallb] in *. apply orb_false_iff in H. destruct H as [Hx H]. rewrite N.eqb_sym, Hx. cbn [negb andb]. apply IH. exact H.
+Qed.
+
+Definition nobrace (c : N) : bool := negb (c =? cLBRACE).
+
+Lemma bare_nobrace : forall l, forallb bare_char l = true -> forallb nobrace l = true.
+Proof.
+  induction l as [|c l IH]; intro H; [reflexivity|]. cbn [forallb] in *. apply andb_true_iff in H. destruct H as [Hc H].
+  rewrite (IH H), andb_true_r. unfold nobrace. apply negb_true_iff. apply N.eqb_neq. intro E. subst c. discriminate.
+Qed.
+
+Lemma tag_nobrace : forall l, forallb tag_char l = true -> forallb nobrace l = true.
+Proof.
+  induction l as [|c l IH]; intro H; [reflexivity|]. cbn [forallb] in *. apply andb_true_iff in H. destruct H as [Hc H].
+  rewrite (IH H), andb_true_r. unfold nobrace. apply negb_true_iff. apply N.eqb_neq. intro E. subst c. discriminate.
+Qed.
+
+Lemma split_annotation_term : forall t, wf_term_ttl t = true -> split_annotation (render_term t) = (render_term t, []).
+Proof.
+  intros t H. pose proof H as H0. unfold split_annotation.
+  destruct t as [s|l|p l|b x|s p o]; cbn [wf_term_ttl] in H; try discriminate.
+  - unfold ttl_iri_ok in H. apply andb_true_iff in H. destruct H as [_ Hb]. apply negb_true_iff in Hb.
+    cbn [render_term starts_with_c]. change (cLT =? cDQ) with false. cbv iota. cbn [skipn].
+    unfold sANN_OPEN. rewrite find_sub_none; [reflexivity|].
+    cbn [forallb]. rewrite forallb_app. rewrite (contains_none _ _ Hb). reflexivity.
+  - cbn [render_term starts_with_c]. change (95 =? cDQ) with false. cbv iota. cbn [skipn].
+    unfold sANN_OPEN. rewrite find_sub_none; [reflexivity|].
+    apply (bare_nobrace (95 :: cCOLON :: l)). cbn [forallb]. rewrite (name_bare l H). reflexivity.
+  - repeat (apply andb_true_iff in H; destruct H as [H ?]).
+    assert (B : forallb bare_char (p ++ cCOLON :: l) = true).
+    { rewrite forallb_app. cbn [forallb]. rewrite (name_bare p H), (name_bare l H4). reflexivity. }
+    cbn [render_term].
+    assert (S : starts_with_c cDQ (p ++ cCOLON :: l) = false).
+    { destruct (p ++ cCOLON :: l) as [|c r] eqn:E; [reflexivity|]. cbn [forallb] in B. apply andb_true_iff in B. destruct B as [Bc _].
+      apply bare_char_facts in Bc. destruct Bc as (_ & _ & _ & D & _). exact D. }
+    rewrite S. cbn [skipn]. unfold sANN_OPEN. rewrite find_sub_none; [reflexivity | apply bare_nobrace; exact B].
+  - apply andb_true_iff in H. destruct H as [H Hx]. apply andb_true_iff in H. destruct H as [Hb _].
+    rewrite (decode_rendered_lit b x Hb). rewrite render_lit. cbn [app starts_with_c]. change (cDQ =? cDQ) with true. cbv iota.
+    assert (L : (length (cDQ :: (lit_text b ++ [cDQ]) ++ suffix_text x) - length (suffix_text x))%nat = length (cDQ :: lit_text b ++ [cDQ])).
+    { cbn [length]. rewrite app_length. lia. }
+    rewrite L. change (cDQ :: (lit_text b ++ [cDQ]) ++ suffix_text x) with ((cDQ :: lit_text b ++ [cDQ]) ++ suffix_text x).
+    rewrite skipn_app, skipn_all, Nat.sub_diag. cbn [app skipn].
+    unfold sANN_OPEN. rewrite find_sub_none; [reflexivity|].
+    destruct x as [|tag|iri]; cbn [suffix_text forallb]; [reflexivity | fold nobrace; rewrite (tag_nobrace tag Hx); reflexivity|].
+    apply andb_true_iff in Hx. destruct Hx as [_ Hbr]. apply negb_true_iff in Hbr.
+    rewrite forallb_app. rewrite (contains_none _ _ Hbr). reflexivity.
+Qed.
+
 Lemma ttl_flush_stmt : forall x s p o, pref_ok (d_pref x) ->
   wf_term_ttl s = true -> wf_term_ttl p = true -> wf_term_ttl o = true ->
   ttl_flush x (Some (render_term s)) (Some (render_term p)) [render_term o]
   = (add_lex x (lex (d_pref x) s) (lex (d_pref x) p) (lex (d_pref x) o) None, []).
 Proof.
   intros x s p o Hp Hs Hpp Ho. unfold ttl_flush. cbn [rev app join_sp].
+  rewrite split_annotation_term by exact Ho. cbv zeta.
   destruct (clean_resolve (d_pref x) s Hp Hs) as [Es Fs].
   destruct (clean_resolve (d_pref x) p Hp Hpp) as [Ep Fp].
   destruct (clean_resolve (d_pref x) o Hp Ho) as [Eo Fo].
@@ -497,7 +610,7 @@ Proof.
   assert (K : forall v, first_lt_free v -> starts_with sLTLT v = false).
   { intros [|c v] Hv; [reflexivity|]. unfold first_lt_free in Hv. unfold sLTLT. cbn [starts_with starts_with_c] in *.
     rewrite N.eqb_sym, Hv. reflexivity. }
-  rewrite (K _ Fs), (K _ Fo). cbn [orb]. unfold add_lex.
+  rewrite (K _ Fs), (K _ Fo). cbn [orb fold_left]. unfold add_lex.
   destruct (db_encode x (lex (d_pref x) s)) as [x1 si]. destruct (db_encode x1 (lex (d_pref x) p)) as [x2 pi].
   destruct (db_encode x2 (lex (d_pref x) o)) as [x3 oi]. reflexivity.
 Qed.
